@@ -75,6 +75,106 @@ def scalar_config(rng, want_ser=None):
     return cfg
 
 
+UPLOAD_SDL = """scalar Upload
+input FileIn { file: Upload! extra: Upload files: [Upload!] note: String child: FileIn }
+type Query { x: Int }
+type Mutation { up(a: Upload, b: Upload!, l: [Upload!], i: FileIn, il: [FileIn!]): Int }
+"""
+UPLOAD_Q = ("mutation Up($a: Upload, $b: Upload!, $l: [Upload!], $i: FileIn, $il: [FileIn!]) "
+            "{ up(a: $a, b: $b, l: $l, i: $i, il: $il) }\n")
+
+
+def upload_checks(ctx):
+    """Upload variables (C11 owns the multipart FORMAT; C03 the VALUES): calls with several DISTINCT Upload objects that
+    share file name and content type but differ in content - as separate variables, list items and fields of (nested,
+    listed) generated input models - plus the same object used twice.  The multipart body is decoded as a server would
+    (operations, map, one part per file put back at the mapped variable paths) and compared with the caller's values."""
+    run = ctx.run
+    scs = [scenario.Scenario(seed=930000 + i, sdl=UPLOAD_SDL, queries=UPLOAD_Q,
+                             config={"convert_to_snake_case": bool(i % 2), "async_client": bool(i // 2)},
+                             features=("corpus:uploads",)) for i in range(4)]
+    counter = [0]
+
+    def up(content, name="doc.txt", ctype="text/plain", same_as=None):
+        counter[0] += 1
+        oid = same_as if same_as is not None else counter[0]
+        return {"$upload": [name, ctype, content, oid]}, {"$file": [name, ctype, content]}, oid
+
+    def file_in(by_alias, **fields):
+        kw, intent = {}, {}
+        for k, v in fields.items():
+            kw[k if by_alias else "$name:" + k] = v[0]
+            intent[k] = v[1]
+        return {"$model": "FileIn", "kw": kw}, intent
+
+    def both(pairs):
+        return [p[0] for p in pairs], [p[1] for p in pairs]
+
+    def cases(rng):
+        out = []
+        a, b = up("AAAA"), up("BBBB")                                    # distinct objects, same name and type
+        out.append(("two-variables", {"a": a[0], "b": b[0]}, {"a": a[1], "b": b[1]}))
+        l = [up("L-one"), up("L-two"), up("L-three")]
+        b2 = up("B2")
+        out.append(("list-items", {"b": b2[0], "l": both(l)[0]}, {"b": b2[1], "l": both(l)[1]}))
+        u = up("SAME")
+        again = up("SAME", same_as=u[2])                                 # the SAME object at two positions
+        out.append(("same-object-twice", {"b": u[0], "l": [again[0], up("OTHER")[0]]},
+                    {"b": u[1], "l": [again[1], {"$file": ["doc.txt", "text/plain", "OTHER"]}]}))
+        for by_alias in (True, False):
+            f1 = file_in(by_alias, file=up("F-file"), extra=up("F-extra"), files=([x[0] for x in (up("F-1"), up("F-2"))],
+                         [{"$file": ["doc.txt", "text/plain", "F-1"]}, {"$file": ["doc.txt", "text/plain", "F-2"]}]),
+                         note=("n", "n"))
+            inner = file_in(by_alias, file=up("INNER"))
+            f2 = file_in(by_alias, file=up("OUTER"), child=inner)
+            il = [file_in(by_alias, file=up(f"IL-{k}")) for k in range(3)]
+            bb = up("B3")
+            out.append((f"model-fields:{'alias' if by_alias else 'name'}",
+                        {"b": bb[0], "i": f1[0], "il": [x[0] for x in il]}, {"b": bb[1], "i": f1[1], "il": [x[1] for x in il]}))
+            bb = up("B4")
+            out.append((f"nested-model:{'alias' if by_alias else 'name'}", {"b": bb[0], "i": f2[0]}, {"b": bb[1], "i": f2[1]}))
+        nn = up("ONLY")
+        out.append(("none-and-omitted", {"b": nn[0], "a": None}, {"b": nn[1], "a": None}))
+        return out
+
+    with workers.Scratch() as sc:
+        gens = scen.generate(scs, sc)
+        for g in gens:
+            cfgname = f"snake={g.sc.config['convert_to_snake_case']} async={g.sc.config['async_client']}"
+            if not g.ok:
+                run.violation(f"uploads: generation fails: {g.res.get('exc')}", {"schema": UPLOAD_SDL, "config": g.sc.config})
+                continue
+            ld = g.start()
+            try:
+                if not ld.get("ok"):
+                    run.violation(f"uploads: package does not import: {json.dumps(ld.get('modules'))[:300]}",
+                                  {"schema": UPLOAD_SDL, "config": g.sc.config})
+                    continue
+                for label, args, intended in cases(random.Random(ctx.seed)):
+                    r = g.driver.ask({"cmd": "call_args", "method": "up", "args": args, "intended": intended})
+                    run.count()
+                    run.dist("uploads", label)
+                    run.nontrivial_case(hash((cfgname, label)))
+                    rep = {"schema": UPLOAD_SDL, "queries": UPLOAD_Q, "config": g.sc.config, "case": label,
+                           "arguments": args, "intended": intended, "observed": r}
+                    req = r.get("request") or {}
+                    sent, want = r.get("sent") or {}, r.get("intended") or {}
+                    problems = []
+                    if req.get("query") is None:
+                        problems.append(f"nothing sent / body not decodable: {r.get('exc')} {req.get('decode_exc')}")
+                    elif "coerced" not in sent or "coerced" not in want:
+                        problems.append(f"variables rejected by coercion: {sent.get('errors') or want.get('errors')}")
+                    else:
+                        for n in sorted(set(sent["coerced"]) | set(want["coerced"])):
+                            if not same_value(sent["coerced"].get(n, "<absent>"), want["coerced"].get(n, "<absent>")):
+                                problems.append(f"${n}: server receives {sent['coerced'].get(n, '<absent>')!r}, caller meant "
+                                                f"{want['coerced'].get(n, '<absent>')!r}")
+                    if problems:
+                        run.violation(f"uploads ({label}, {cfgname}): " + "; ".join(problems[:2])[:600], rep)
+            finally:
+                g.stop()
+
+
 def k2_tables(run):
     """The model's constant tables vs the constants of /repo's SOURCE, re-derived on every run (fail closed when a
     constant cannot be found any more)."""
@@ -189,6 +289,7 @@ scalar JSONBlob
 enum EnumA { RED GREEN }
 input InA { x: Int when: DateTime }
 type Query { f(a: Int, b: Boolean, d: DateTime, j: [JSONBlob], i: InA, e: EnumA, s: String): Int }
+type Subscription { f(a: Int, b: Boolean, d: DateTime, j: [JSONBlob], i: InA, e: EnumA, s: String): Int }
 """
 
 
@@ -209,6 +310,13 @@ def body_name_scenarios(ctx):
     ops.append("query Twins($from: Int, $from_: Int, $self: Int, $self_: Int, $kwargs: Int, $kwargs_: Int, $class: Int, "
                "$class_: Int) { f(a: $from) g1: f(a: $from_) g2: f(a: $self) g3: f(a: $self_) g4: f(a: $kwargs) "
                "g5: f(a: $kwargs_) g6: f(a: $class) g7: f(a: $class_) }")
+    # (v) subscriptions (async clients only): the same names as variables of a subscription method, whose body hands
+    #     the query / variables locals to execute_ws
+    sub_ops = [f"subscription SubBody{k}(${n}: Boolean!, $after: DateTime!, $j: [JSONBlob]) {{ f(b: ${n}, d: $after, j: $j) }}"
+               for k, n in enumerate(["query", "variables", "response", "data", "self", "kwargs", "gql", "ser_dt", "UNSET",
+                                      "execute_ws"])]
+    sub_ops.append("subscription SubLocals($query: String!, $variables: Int, $data: [JSONBlob]) "
+                   "{ f(s: $query, a: $variables, j: $data) }")
     cfg_sc = {"DateTime": {"type": "Any", "serialize": "vscal.ser_dt", "parse": "vscal.parse_dt"},
               "JSONBlob": {"type": "Any", "serialize": "vscal.ser_blob"}}
     orders = [list(range(len(ops))), list(reversed(range(len(ops)))), [1] + [i for i in range(len(ops)) if i != 1],
@@ -218,9 +326,11 @@ def body_name_scenarios(ctx):
     out = []
     for oi, order in enumerate(orders):
         for snake in (False, True):
+            is_async = bool(oi % 2)
             out.append(scenario.Scenario(
-                seed=910000 + 2 * oi + int(snake), sdl=BODY_SDL, queries="\n\n".join(ops[i] for i in order) + "\n",
-                config={"convert_to_snake_case": snake, "async_client": bool(oi % 2), "scalars": cfg_sc},
+                seed=910000 + 2 * oi + int(snake), sdl=BODY_SDL,
+                queries="\n\n".join([ops[i] for i in order] + (sub_ops if is_async else [])) + "\n",
+                config={"convert_to_snake_case": snake, "async_client": is_async, "scalars": cfg_sc},
                 features=("corpus:body-names",), files={"vscal.py": argenc.VSCAL + BODY_VSCAL_EXTRA}))
     return out
 
@@ -452,6 +562,7 @@ def run(ctx):
     run.extra["phase_seconds"] = {b: round(t_ph[b] - t_ph[a], 1) for a, b in zip(ks, ks[1:])}
     run.extra["totals"] = stats
     run.extra["k2_disagreements"] = k2_bad
+    upload_checks(ctx)
 
 
 def driver_json(v):
@@ -629,7 +740,11 @@ def check_call(ctx, g, op, vds, c, names_ok, inputs_ok, f10_bad, stats, f21_ok=T
     else:
         sent, intended = r.get("sent") or {}, r.get("intended") or {}
         if r.get("reference_exc"):
-            problems.append(f"reference execution failed: {r['reference_exc'][:2]}")
+            q = (r.get("request") or {}).get("query")
+            if not (isinstance(q, str) and op.name.value in q):
+                problems.append(f"the document sent is not the operation but {q!r:.80} ({r['reference_exc'][0]})")
+            else:
+                problems.append(f"reference execution failed: {r['reference_exc'][:2]}")
             involved = None
         elif "errors" in intended:
             run.broken("harness", f"intended values rejected by graphql-core: {intended['errors']}")
